@@ -99,7 +99,7 @@ Example typed_contact_example :
               c_ticket := true; c_created := 5; c_last_seen := Some 6%Z;
               c_fields := [([97]%N, (FNumber, {| fv_text := [49]%N; fv_num := Some {| d_m := 1; d_e := 0 |};
                                                 fv_dt := None; fv_state := []; fv_district := [];
-                                                fv_ward := [] |}))] |} in
+                                                fv_ward := [] |}))]; c_groups := [] |} in
   typed_contact r c /\ query_property c PField [97]%N = [VNum {| d_m := 1; d_e := 0 |}].
 Proof.
   split; [|reflexivity].
@@ -943,7 +943,7 @@ Proof.
        e_valid_lang := fun _ => true |},
     {| r_field := fun _ => None; r_group := fun _ => false; r_flow := fun _ => false |},
     {| c_uuid := []; c_name := []; c_lang := []; c_urns := []; c_ticket := false;
-       c_created := (day_ns + 1800000000000)%Z; c_last_seen := None; c_fields := [] |},
+       c_created := (day_ns + 1800000000000)%Z; c_last_seen := None; c_fields := []; c_groups := [] |},
     PAttr, k_created_on, [50; 48; 50; 49]%N, 0%Z, (day_ns + 1800000000000)%Z.
   split; [exact cal25_ok|]. repeat split. discriminate.
 Qed.
@@ -1014,4 +1014,29 @@ Proof.
   - unfold eval_contact. cbn [eval]. unfold eval_cond. cbn [is_nil is_eq is_ne andb].
     change (query_property c PAttr k_last_seen_on) with (match c_last_seen c with Some t => [VTime t] | None => [] end).
     destruct (c_last_seen c); reflexivity.
+Qed.
+
+(* ---- the attributes Contact.QueryProperty does not resolve ------------------------------------------------------- *)
+
+(* FULL STATEMENT (false): for the attribute group, `= ""` holds iff the contact is in no group.
+   What holds: the evaluation does not depend on the contact's groups at all ... *)
+Lemma group_not_resolved : forall e r c o v,
+  eval_contact e r (Cond PAttr k_group o v) c
+  = eval_contact e r (Cond PAttr k_group o v)
+      {| c_uuid := c_uuid c; c_name := c_name c; c_lang := c_lang c; c_urns := c_urns c; c_ticket := c_ticket c;
+         c_created := c_created c; c_last_seen := c_last_seen c; c_fields := c_fields c; c_groups := [] |}.
+Proof. intros. reflexivity. Qed.
+
+(* ... so a contact that IS in a group satisfies `group = ""` and not `group != ""` *)
+Lemma empty_value_group_refuted :
+  exists e r c, c_groups c <> []
+    /\ eval_contact e r (Cond PAttr k_group OpEq []) c = RBool true
+    /\ eval_contact e r (Cond PAttr k_group OpNe []) c = RBool false
+    /\ validate e r (Cond PAttr k_group OpEq []) = None.
+Proof.
+  exists {| e_lower := fun x => x; e_tokens := fun _ => []; e_day_start := fun _ => None; e_valid_lang := fun _ => true |},
+    {| r_field := fun _ => None; r_group := fun _ => true; r_flow := fun _ => false |},
+    {| c_uuid := []; c_name := []; c_lang := []; c_urns := []; c_ticket := false; c_created := 0%Z; c_last_seen := None;
+       c_fields := []; c_groups := [[84; 101; 115; 116; 101; 114; 115]%N] |}.
+  repeat split. discriminate.
 Qed.
